@@ -47,7 +47,7 @@ def runCb (h : Nested) (m : Machine) (x : Ctx) (ph : Phase) (cb : CbId) : EM Val
   match a.raises with
   | some e => EM.throw (.user e)
   | none =>
-    logAppend [.cbEnd x.t.tid ph cb]
+    logAppend [.cbEnd x.t.tid ph cb a.ret]
     pure a.ret
 
 /-- `CallbacksExecutor.call`: every callback of the group, results collected -/
